@@ -539,11 +539,100 @@ theorem entitledSession_retainedState (s : Server) (pk0 pk : Msg) (n : Nat) :
     (retainedState_quiet s pk0).plain pk n
 
 /-- a topic name without wildcard character has no level `#` -/
-theorem no_hash_level (topic : Str) (hv : isValidFilter topic true = true) : ∀ t ∈ splitLevels topic, t ≠ [hash] := by
+theorem no_hash_level_of_noWild (topic : Str) (hw : (topic.contains plus || topic.contains hash) = false) :
+    ∀ t ∈ splitLevels topic, t ≠ [hash] := by
   intro t ht e
-  have hw := isValidFilter_pub_no_wild topic hv
   have : hash ∈ topic := mem_splitLevels topic t ht hash (by rw [e]; exact List.mem_singleton.mpr rfl)
   simp at hw
   exact hw.2 this
+
+theorem no_hash_level (topic : Str) (hv : isValidFilter topic true = true) : ∀ t ∈ splitLevels topic, t ≠ [hash] :=
+  no_hash_level_of_noWild topic (isValidFilter_pub_no_wild topic hv)
+
+/-! ### the inline API: `Server.Publish` -/
+
+/-- the message an inline publish routes: built by `processPublish` for the inline client (object 0; the packet id of
+    the model's inline packet is its QoS), QoS capped at the broker's maximum -/
+def inlineMsg (s : Server) (topic payload : Str) (retain : Bool) (qos : Nat) : Msg :=
+  inboundMsg s 0 (if qos > s.caps.maximumQos then s.caps.maximumQos else qos) false retain qos topic payload 0
+
+/-- the hypotheses under which an inline publish is routed and nothing else happens in the op.  The inline client
+    passes the topic-validity and write-ACL gates of `processPublish` unexamined; `PublishValidate` (no wildcard, no
+    empty topic) and the receive-quota test apply to it as to everyone. -/
+structure AcceptedInline (s : Server) (topic : Str) : Prop where
+  /-- object 0 is the inline client (`init`; kept by every op) -/
+  inline0 : (getObj s 0).inline = true
+  noWild : (topic.contains plus || topic.contains hash) = false
+  nonempty : topic ≠ []
+  /-- the inline client's receive quota (2147483647 at `init`, never taken: its publishes are routed at once) -/
+  quota : (getObj s 0).recvQuota ≠ 0
+  hook : assocGet s.pubHook topic = none
+  noDeferred : ∀ m ∈ (getObj s 0).inflight, 0 ≤ m.expiry
+
+theorem processPublish_inline_shape (s : Server) (topic payload : Str) (retain : Bool) (qos : Nat)
+    (h : AcceptedInline s topic) :
+    processPublish s 0 qos false retain qos topic payload 0 none =
+      ((publishToSubscribers (retainedState s (inlineMsg s topic payload retain qos))
+          (inlineMsg s topic payload retain qos)).1,
+       (publishToSubscribers (retainedState s (inlineMsg s topic payload retain qos))
+          (inlineMsg s topic payload retain qos)).2, none) := by
+  have hrq' : ((getObj s 0).recvQuota == 0) = false := by simpa using h.quota
+  have hr : ((none : Option String) == some "reject") = false := by decide
+  have he : ((none : Option String) == some "err") = false := by decide
+  have hi : ((none : Option String) == some "ignore") = false := by decide
+  unfold processPublish
+  simp only [h.inline0, hrq', Bool.not_true, Bool.false_and, Bool.false_eq_true, if_false, if_true,
+    setObj_getObj_self]
+  by_cases hq : qos > s.caps.maximumQos
+  · simp only [hq, if_true, h.hook, hr, he, hi, Bool.false_and, Bool.false_eq_true, if_false, Bool.or_true]
+    unfold inlineMsg
+    rw [if_pos hq]
+    rfl
+  · simp only [hq, if_false, h.hook, hr, he, hi, Bool.false_and, Bool.false_eq_true, Bool.or_true, if_true]
+    unfold inlineMsg
+    rw [if_neg hq]
+    rfl
+
+theorem publishValidate_inline (s : Server) (topic : Str) (qos : Nat)
+    (hw : (topic.contains plus || topic.contains hash) = false) (hne : topic ≠ []) :
+    publishValidate s qos qos topic none = none := by
+  have hne' : topic.isEmpty = false := by cases topic <;> simp_all
+  have h1 : (decide (qos > 0) && qos == 0) = false := by
+    cases qos <;> simp
+  have h2 : (qos == 0 && decide (qos > 0)) = false := by
+    cases qos <;> simp
+  unfold publishValidate
+  simp only [h1, h2, hw, hne', Bool.false_eq_true, if_false, Option.getD_none, Nat.not_lt_zero, gt_iff_lt,
+    Bool.false_and]
+  rfl
+
+theorem inlineMsg_fields (s : Server) (topic payload : Str) (retain : Bool) (qos : Nat) :
+    (inlineMsg s topic payload retain qos).topic = topic ∧ (inlineMsg s topic payload retain qos).payload = payload ∧
+    (inlineMsg s topic payload retain qos).type = 3 ∧ (inlineMsg s topic payload retain qos).ignore = false ∧
+    (inlineMsg s topic payload retain qos).origin = (getObj s 0).id ∧
+    (qos = 0 → (inlineMsg s topic payload retain qos).qos = 0) := by
+  refine ⟨rfl, rfl, rfl, rfl, rfl, fun h => ?_⟩
+  subst h
+  show (if 0 > s.caps.maximumQos then s.caps.maximumQos else 0) = 0
+  rw [if_neg (Nat.not_lt_zero _)]
+
+/-- **the inline op is the call** -/
+theorem step_inlinePublish_accepted (s : Server) (topic payload : Str) (retain : Bool) (qos : Nat)
+    (h : AcceptedInline s topic)
+    (hq : (inlineMsg s topic payload retain qos).qos = 0 ∨
+      ∀ cs ∈ (subscribers (retainedState s (inlineMsg s topic payload retain qos)).topics topic).subs, cs.2.qos = 0)
+    (hsh : (subscribers (retainedState s (inlineMsg s topic payload retain qos)).topics topic).shared = []) :
+    step s (.inlinePublish topic payload retain qos) =
+      publishToSubscribers (retainedState s (inlineMsg s topic payload retain qos))
+        (inlineMsg s topic payload retain qos) := by
+  have hk := publishToSubscribers_q0_keep (retainedState s (inlineMsg s topic payload retain qos))
+    (inlineMsg s topic payload retain qos) rfl hq hsh 0
+  have hn := nextImmediate_none (publishToSubscribers (retainedState s (inlineMsg s topic payload retain qos))
+    (inlineMsg s topic payload retain qos)).1 0 (by
+      rw [hk.1, getObj_retainedState]; exact h.noDeferred)
+  rw [step]
+  unfold receivePacket
+  simp only [publishValidate_inline s topic qos h.noWild h.nonempty,
+    processPublish_inline_shape s topic payload retain qos h, hn, List.append_nil]
 
 end Mochi.Broker
